@@ -1,7 +1,12 @@
 import TbbVerif.Core.Proto
+import TbbVerif.Model.C14
 
 open TbbVerif
 
-def drivers : List (String × Proto.Driver) := []
+def drivers : List (String × Proto.Driver) := [
+  ("c14sim", C14.Sim.driver),
+  ("c14cache", C14.cacheDriver),
+  ("c14net", C14.NetDrv.driver)
+]
 
 def main (args : List String) : IO UInt32 := Proto.mainOf drivers args
